@@ -39,6 +39,20 @@ func main() {
 		os.Exit(cmdExplain(os.Args[2:]))
 	case "selftest":
 		os.Exit(cmdSelftest(os.Args[2:]))
+	case "effects":
+		p, err := Load("/repo", nil)
+		if err != nil {
+			fmt.Println(err)
+			os.Exit(2)
+		}
+		e := p.Effects()
+		for _, f := range e.funcs {
+			if _, ok := e.writes[f.Obj]; ok {
+				fmt.Printf("W %-50s %v unknown=%v pure=%s\n", f.Name, e.Writes(f.Obj), e.unknown[f.Obj], e.pure[f.Obj])
+			} else {
+				fmt.Printf("R %-50s recvMut=%v\n", f.Name, e.recvMut[f.Obj])
+			}
+		}
 	case "manifest":
 		os.Exit(cmdManifest())
 	case "rules":
